@@ -6,7 +6,7 @@ package dag
 // Comment-only file: it is compiled only with -tags verif and contains no code.
 
 //@ func readOperationPack
-//@   props C07 C08
+//@   props C07 C08 C04
 //@   nopanic
 //@   requires repo != nil && def.OperationUnmarshaler != nil
 //@   modifies openpgp.sigChecks, openpgp.lastKeyring, openpgp.lastSigned, openpgp.lastSignature, openpgp.lastSigOK, identity.entityKey
@@ -80,6 +80,12 @@ package dag
 // root carries a creation time, and there is one root only - histories that break one of these are refused
 //@   assert at `oppMap[commit.Hash] = opp` [merge-commits-carry-no-operation] len(commit.Parents) > 1 ==> len(opp.Operations) == 0
 //@   assert at `oppMap[commit.Hash] = opp` [root-has-creation-time] len(commit.Parents) == 0 ==> opp.CreateTime > 0
+// ... and each refusal is made for its documented reason only (a valid history - any fork and merge shape git-bug
+// produces - must stay readable on every replica, or replicas stop converging: C01)
+//@   assert at `return *new(EntityT), fmt.Errorf("multiple leafs in the entity DAG")` [refused-only-for-a-second-root] rootCount > 1 && len(commit.Parents) == 0
+//@   assert at `return *new(EntityT), fmt.Errorf("merge commit cannot have` [refused-only-for-operations-on-a-merge] len(commit.Parents) > 1 && len(opp.Operations) > 0
+//@   assert at `return *new(EntityT), fmt.Errorf("creation lamport time not set")` [refused-only-for-a-root-without-creation-time] len(commit.Parents) == 0 && opp.CreateTime <= 0
+//@   assert at `return *new(EntityT), fmt.Errorf("lamport clock ordering doesn't match` [refused-only-for-a-clock-not-after-its-parent] parentPack.EditTime >= opp.EditTime
 //@   check [single-root] err == nil ==> (forall k int :: { BFSOrder[k] } forall l int :: { BFSOrder[l] } 0 <= k && k < len(BFSOrder) && 0 <= l && l < len(BFSOrder) && len(BFSOrder[k].Parents) == 0 && len(BFSOrder[l].Parents) == 0 ==> k == l)
 //@   check [clock-edge] err == nil ==> (forall k int :: { BFSOrder[k] } 0 <= k && k < len(BFSOrder) ==> (forall j int :: { BFSOrder[k].Parents[j] } 0 <= j && j < len(BFSOrder[k].Parents) ==> (BFSOrder[k].Parents[j] in oppMap) && oppMap[BFSOrder[k].Parents[j]].EditTime < oppMap[BFSOrder[k].Hash].EditTime))
 //@   check [clock-jump] err == nil ==> (forall k int :: { BFSOrder[k] } 0 <= k && k < len(BFSOrder) && len(BFSOrder[k].Parents) <= 1 ==> (forall j int :: { BFSOrder[k].Parents[j] } 0 <= j && j < len(BFSOrder[k].Parents) ==> oppMap[BFSOrder[k].Hash].EditTime - oppMap[BFSOrder[k].Parents[j]].EditTime <= 1000000))
@@ -103,12 +109,23 @@ package dag
 //@     invariant oppSlice == nil || fresh(oppSlice)
 
 // Writing a pack stores objects only (no ref is touched); the new commit has the given parents.
+// (the three facts about the ghost mutation counter and the ancestry relation are definitions of that ghost state:
+// assumed by callers, not checked against the body.) The body is verified for the layout of the tree it stores
+// (C04: attached files travel with the entity; C15: what is written is well formed): the serialized operations are the
+// blob named "ops", every entry is a blob except the one named "extra", which is a tree and is there whenever the
+// pack has at least one attached file.
 //@ func (*operationPack).Write
-//@   trusted
+//@   props C04 C15
+//@   requires opp != nil
+//@   opt assume_pre=PGPEntity
 //@   modifies opp.id, repository.mutSeq
-//@   ensures [objects-stored] result1 == nil ==> repository.mutSeq > old(repository.mutSeq)
-//@   ensures [counted] repository.mutSeq >= old(repository.mutSeq)
-//@   ensures [parents] result1 == nil ==> (forall k int :: { parentCommit[k] } 0 <= k && k < len(parentCommit) ==> repository.anc(parentCommit[k], result))
+//@   opt trusted_frame
+//@   defines [objects-stored] result1 == nil ==> repository.mutSeq > old(repository.mutSeq)
+//@   defines [counted] repository.mutSeq >= old(repository.mutSeq)
+//@   defines [parents] result1 == nil ==> (forall k int :: { parentCommit[k] } 0 <= k && k < len(parentCommit) ==> repository.anc(parentCommit[k], result))
+//@   assert at `treeHash, err := repo.StoreTree(tree)` [operations-are-the-ops-blob] len(tree) >= 3 && tree[1].Name == opsEntryName && tree[1].Hash == hash && tree[1].ObjectType == repository.Blob
+//@   assert at `treeHash, err := repo.StoreTree(tree)` [entry-kinds] forall k int :: { tree[k] } 0 <= k && k < len(tree) ==> (tree[k].ObjectType == repository.Tree) == (tree[k].Name == extraEntryName) && (tree[k].ObjectType == repository.Tree || tree[k].ObjectType == repository.Blob)
+//@   assert at `treeHash, err := repo.StoreTree(tree)` [attachments-are-referenced] len(extraTree) > 0 ==> (exists k int :: { tree[k] } 0 <= k && k < len(tree) && tree[k].Name == extraEntryName && tree[k].ObjectType == repository.Tree)
 
 // merge (C02): the five scenarios, decided on the ghost ref store and the ancestry relation.
 // (C15) ... and no ref outside refs/<namespace>/ is ever created, moved or deleted by it
@@ -223,9 +240,31 @@ package dag
 //@   props C06
 //@   modifies nothing
 //@   ensures result == (len(e.staging) > 0)
-//@ func (*Entity).Validate
+// Validating an entity (C02, C07: the gate a remote history passes before it becomes local): it is accepted only when
+// it has an operation and every operation - the stored ones as well as the staged ones - passed its own Validate.
+// opValid(op): the verdict of the operation's Validate (a function of the operation while nothing modifies it).
+//@ spec func opValid(op Operation) bool
+//@ func Operation.Validate
+//@   modifies nothing
+//@   defines [verdict] (result == nil) == opValid(recv)
+//@ func (*Entity).Operations
 //@   trusted
 //@   modifies nothing
+//@ func (*Entity).Validate
+//@   props C02 C07
+//@   requires e != nil
+//@   modifies nothing
+//@   opt trusted_frame
+//@   ensures [non-empty] result == nil ==> len(e.ops) + len(e.staging) > 0
+//@   ensures [every-operation-valid] result == nil ==> (forall k int :: { e.ops[k] } 0 <= k && k < len(e.ops) ==> opValid(e.ops[k])) && (forall k int :: { e.staging[k] } 0 <= k && k < len(e.staging) ==> opValid(e.staging[k]))
+//@   loop 1
+//@     invariant forall k int :: { e.ops[k] } 0 <= k && k <= rangeindex ==> opValid(e.ops[k])
+//@   loop 2
+//@     invariant forall k int :: { e.ops[k] } 0 <= k && k < len(e.ops) ==> opValid(e.ops[k])
+//@     invariant forall k int :: { e.staging[k] } 0 <= k && k <= rangeindex ==> opValid(e.staging[k])
+//@   loop 3
+//@     invariant forall k int :: { e.ops[k] } 0 <= k && k < len(e.ops) ==> opValid(e.ops[k])
+//@     invariant forall k int :: { e.staging[k] } 0 <= k && k < len(e.staging) ==> opValid(e.staging[k])
 // the author of an operation is a fixed attribute of it
 //@ func Operation.Author
 //@   purefn
@@ -333,6 +372,8 @@ package dag
 //@   props C04 C15
 //@   opt inv_core=l1-names,l1-added,l2-names,l2-added,l2-current
 //@   requires opp != nil
+//@   modifies nothing
+//@   opt trusted_frame
 //@   ensures [every-file-referenced] forall k int :: { opp.Operations[k] } 0 <= k && k < len(opp.Operations) && implements(opp.Operations[k], OperationWithFiles) ==> (forall j int :: { opp.Operations[k].(OperationWithFiles).GetFiles()[j] } 0 <= j && j < len(opp.Operations[k].(OperationWithFiles).GetFiles()) ==> (exists e int :: { result[e] } 0 <= e && e < len(result) && result[e].Hash == opp.Operations[k].(OperationWithFiles).GetFiles()[j]))
 //@   ensures [names-distinct] forall a int :: { result[a] } forall b int :: { result[b] } 0 <= a && a < b && b < len(result) ==> result[a].Name != result[b].Name
 //@   loop 1
@@ -452,3 +493,19 @@ package dag
 //@ func Interface.Operations
 //@   modifies nothing
 //@   ensures [no-typed-nil] forall k int :: { result[k] } 0 <= k && k < len(result) ==> hasvalue(result[k])
+
+// A pull of one entity type is a fetch followed by a merge - whatever the fetch answers (C02).
+//@ ghost var mergeRuns int
+//@ func MergeAll
+//@   trusted
+//@   modifies mergeRuns
+//@   defines [counted] mergeRuns == old(mergeRuns) + 1
+//@ func Pull
+//@   props C02
+//@   stable mergeRuns
+//@   ensures [a-successful-pull-has-merged] result == nil ==> mergeRuns == old(mergeRuns) + 1
+//@   loop 1
+//@     invariant mergeRuns == old(mergeRuns) + 1
+// asking an operation for its id may derive and remember it; nothing else changes
+//@ func Operation.Id
+//@   modifies all(OpBase.id)
